@@ -69,7 +69,7 @@ impl IDLArgs {
             let v = v.annotate_type(from_parser, env, ty)?;
             args.push(v);
         }
-        for ty in types[self.args.len()..].iter() {
+        for ty in types.iter().skip(self.args.len()) {
             let v = match env.trace_type(ty)?.as_ref() {
                 TypeInner::Null => IDLValue::Null,
                 TypeInner::Reserved => IDLValue::Reserved,
